@@ -13,6 +13,9 @@ Section EvalDec.
   Definition o2 (op : d2op) (x y : dec) : res dec := of_option (d2 D op x y).
   (** an operation the code calls through a *raw* operator or an infallible method:
       a failure of the library there is a panic *)
+  (** add / sub / mul: the written-out exact path when it applies, the library otherwise *)
+  Definition ex2 (f : dec -> dec -> option dec) (op : d2op) (x y : dec) : res dec :=
+    match f x y with Some r => Ok r | None => o2 op x y end.
   Definition raw1 (op : d1op) (x : dec) : res dec :=
     match d1 D op x with Some r => Ok r | None => Panic end.
   Definition raw2 (op : d2op) (x y : dec) : res dec :=
@@ -143,7 +146,7 @@ Section EvalDec.
 
   Definition un_dec (u : unop) (v : dec) : res dec :=
     match u with
-    | UNegative => raw1 DNeg v
+    | UNegative => Ok (dec_neg v)
     | UAbs => raw1 DAbs v
     | UFloor => raw1 DFloor v
     | UCeil => raw1 DCeil v
@@ -162,9 +165,9 @@ Section EvalDec.
 
   Definition bin_dec (b : binop) (x y : dec) : res dec :=
     match b with
-    | BAdd => o2 DAdd x y
-    | BSubtract => o2 DSub x y
-    | BMultiply => o2 DMul x y
+    | BAdd => ex2 dec_add_exact DAdd x y
+    | BSubtract => ex2 dec_sub_exact DSub x y
+    | BMultiply => ex2 dec_mul_exact DMul x y
     | BDivide => o2 DDiv x y
     | BModulo => o2 DRem x y
     | BPow => o2 DPowd x y
